@@ -75,6 +75,8 @@ DoSend(s0, P, h, cc, tp) ==
 DoAnswer(s, P, rk, ex) ==
     IF s.ph # "sent" THEN V(s, "answer-without-send")
     ELSE IF rk = "rack" THEN [s EXCEPT !.ph = "reack"]
+    ELSE IF rk = "badmac" THEN          \* FeliCa Lite: the answer arrived but its MAC does not verify. Answered: no retry;
+        [s EXCEPT !.ph = "idle", !.gave = s.gave + 1, !.lastGive = "mac", !.dirty = TRUE]   \* must fail as documented
     ELSE IF rk = "wtx" THEN [s EXCEPT !.ph = "wtx", !.ex = s.ex + (IF ex THEN 1 ELSE 0)]
     ELSE LET s1 == [s EXCEPT !.ex = s.ex + (IF ex THEN 1 ELSE 0), !.ph = "idle"] IN
          VIf(s1, s1.ex > 1 + s1.fAfter, "executed-twice")
@@ -98,7 +100,8 @@ DoFault(s, P, kind, ex) ==
 \* P.gone: the operation starts on a tag object whose tag has already left the field (an earlier operation on the
 \* same object ended with the failed sense): nothing can be "survived", the outcome must be the documented failure
 GaveUp(s, P) == s.gave > 0 \/ P.gone
-ErrnoOk(s, P, e) == IF s.gave = 0 \/ s.lastGive = "gone" THEN e \in {0, -1}     \* TIMEOUT_ERROR (tt2.py:580) or the
+ErrnoOk(s, P, e) == IF s.gave > 0 /\ s.lastGive = "mac" THEN TRUE             \* any TagCommandError
+                    ELSE IF s.gave = 0 \/ s.lastGive = "gone" THEN e \in {0, -1}     \* TIMEOUT_ERROR (tt2.py:580) or the
                     ELSE e = ErrnoOf(s.lastGive)                                \* RECEIVE_ERROR of tt2.py:489 (NAK + tag gone)
 RetAllowed(s, P, r) ==
     IF s.amb THEN r.kind \in {"ok", "tagerr"}                                 \* lost SECTOR SELECT packet 2: outcome not judged
